@@ -6,6 +6,7 @@ import (
 	"context"
 	"errors"
 	"fmt"
+	"io"
 	"sort"
 	"sync"
 	"time"
@@ -51,6 +52,32 @@ type Consensus struct {
 	shutdown     bool
 }
 
+// replaceOnRestoreState is the state we hand to Raft. Raft restores
+// snapshots by calling Unmarshal() on it, and may do so on a peer which
+// already holds (older) state, for example when it was down for long enough
+// for the log to be compacted. dsstate's Unmarshal adds the snapshot entries
+// to whatever is in the store, which would keep the items that were unpinned
+// in the meantime: empty the state first.
+type replaceOnRestoreState struct {
+	*dsstate.State
+}
+
+// Unmarshal replaces the contents of the state with those in the snapshot.
+func (st *replaceOnRestoreState) Unmarshal(r io.Reader) error {
+	ctx := context.Background()
+	pins, err := st.State.List(ctx)
+	if err != nil {
+		return err
+	}
+	for _, pin := range pins {
+		err = st.State.Rm(ctx, pin.Cid)
+		if err != nil {
+			return err
+		}
+	}
+	return st.State.Unmarshal(r)
+}
+
 // NewConsensus builds a new ClusterConsensus component using Raft.
 //
 // Raft saves state snapshots regularly and persists log data in a bolt
@@ -82,7 +109,7 @@ func NewConsensus(
 	if err != nil {
 		return nil, err
 	}
-	consensus := libp2praft.NewOpLog(state, baseOp)
+	consensus := libp2praft.NewOpLog(&replaceOnRestoreState{state}, baseOp)
 	raft, err := newRaftWrapper(host, cfg, consensus.FSM(), staging)
 	if err != nil {
 		logger.Error("error creating raft: ", err)
